@@ -200,12 +200,14 @@ class FullscreenWindow(BaseWindow, ContextManager["FullscreenWindow"]):
         current_lines_by_row: Dict[int, Optional[FmtStr]] = {}
 
         # rows which we have content for and don't require scrolling
-        for row, line in enumerate(array):
+        # (only the part of the array that fits: rows below the screen and
+        # columns right of it are not rendered)
+        for row, line in enumerate(array[:height]):
             current_lines_by_row[row] = line
             if line == self._last_lines_by_row.get(row, None):
                 continue
             self.write(self.t.move(row, 0))
-            self.write(for_stdout(line))
+            self.write(for_stdout(line[:width]))
             if len(line) < width:
                 self.write(self.t.clear_eol)
 
